@@ -70,7 +70,10 @@ SUBPATHS_PATHS = [b"/api/int/5", b"/api/v1/x", b"/api/v1", b"/static/a.txt", b"/
 JSON_VALUES = [{"a": [1, 2, 7], "k": "v"}, {"k": "é", "n": -1.5e3, "t": True, "z": None}, [1, [2, [3, []]], {"x": {}}], "text", 12345, {"id": 9007199254740993}]
 URLENC = [b"a=1&b=two", b"a=1&b=two&c=%E4%B8%AD&d=x+y", b"k=%C3%A9&k=2&empty=", b"only"]
 
-TARGETS = [(4, "accessors"), (8, "reqbody"), (3, "fileresponse"), (4, "router"), (1, "subpaths"), (1, "hosts"), (3, "files"), (3, "pages")]
+TARGETS = [(4, "accessors"), (8, "reqbody"), (3, "fileresponse"), (4, "router"), (1, "subpaths"), (1, "hosts"), (3, "files"), (3, "pages"), (2, "nested")]
+# bundled applications mounted below a prefix (the mount rewrites the path for them)
+NESTED_PATHS = [b"/static/a.txt", b"/static/%E9%A1%B5.html", b"/static/sub/b.txt", b"/static/r%E9sum%E9.dat", b"/pages/sub/", b"/pages/page", b"/pages/%E9%A1%B5",
+                b"/api/int/5", b"/api/str/%E4%B8%AD%E6%96%87", b"/api/any/a/%E9%A1%B5/c", b"/caf%C3%A9/a.txt", b"/caf%C3%A9/%E9%A1%B5.html", b"/static", b"/"]
 REQUEST_TARGETS = ("accessors", "reqbody")
 
 WEIGHTS = {
@@ -84,6 +87,7 @@ WEIGHTS = {
     "router": {"path": 16, "query": 1, "h:*": 1},
     "subpaths": {"path": 14, "h:*": 1},
     "hosts": {"h:host": 12, "path": 4, "h:*": 1},
+    "nested": {"path": 14, "h:host": 1, "h:*": 1},
     "files": {"path": 12, "h:if-none-match": 4, "h:if-modified-since": 4, "h:host": 1, "h:*": 1},
     "pages": {"path": 12, "h:if-none-match": 3, "h:if-modified-since": 3, "h:host": 4, "h:*": 1},
 }
@@ -191,7 +195,8 @@ class C12(Prop):
         subpaths = M.Subpaths(("/api/v1", endpoint), ("/api", endpoint), ("/static", endpoint), ("/pages", endpoint))
         hosts = M.Hosts((r"static\.example\.com(:\d+)?", endpoint), (r"api\.example\.com(:\d+)?", endpoint),
                         (r"(www\.)?example\.com(:\d+)?", endpoint), (r"\[::1\](:\d+)?|127\.0\.0\.1(:\d+)?", endpoint))
-        return {"M": M, "router": router, "subpaths": subpaths, "hosts": hosts, "files": files, "files404": files404, "pages": pages}
+        nested = M.Subpaths(("/static", files), ("/pages", pages), ("/api", router), ("/caf\u00e9", files404))
+        return {"M": M, "router": router, "subpaths": subpaths, "hosts": hosts, "files": files, "files404": files404, "pages": pages, "nested": nested}
 
     # -----------------------------------------------------------------------------------------
     # plan
@@ -228,8 +233,10 @@ class C12(Prop):
             body = json.dumps(t.choice(JSON_VALUES), ensure_ascii=bool(t.draw(2))).encode("utf-8")
             return body, t.choice(["application/json", "application/json; charset=utf-8", "application/json;charset=UTF-8"]), ()
         if bkind == "urlenc":
+            # the client chooses the charset label: exotic but existing codecs are part of "unknown charsets"
             return t.choice(URLENC), t.choice(["application/x-www-form-urlencoded", "application/x-www-form-urlencoded; charset=utf-8",
-                                               "application/x-www-form-urlencoded;charset=latin-1"]), ()
+                                               "application/x-www-form-urlencoded;charset=latin-1", "application/x-www-form-urlencoded; charset=idna",
+                                               "application/x-www-form-urlencoded; charset=punycode", "application/x-www-form-urlencoded; charset=utf-7"]), ()
         if bkind == "mp":
             form = mpm.gen_form(t, max_parts=3, file_bias=2, allow_pre_epi=False)
             if not form["parts"]:
@@ -276,6 +283,9 @@ class C12(Prop):
             hs = self._headers(t)
         elif target == "hosts":
             path = t.choice([b"/", b"/a.txt", b"/int/3", b"/x"])
+            hs = self._headers(t)
+        elif target == "nested":
+            path = t.choice(NESTED_PATHS)
             hs = self._headers(t)
         elif target in ("files", "pages"):
             method = t.choice(["GET", "GET", "GET", "HEAD"])
